@@ -439,6 +439,26 @@ func runC19(col *Collector, tier string, seed int64) {
 			}
 		}
 	}
+	// always: several tasks printing long lines (4500..5500 bytes, each line in one write) at the same time
+	for _, writers := range []int{2, 4, 8} {
+		for _, f := range []string{output.FormatPrefixed, output.FormatRaw} {
+			s := outSpec{format: f}
+			for w := 0; w < writers; w++ {
+				var st []byte
+				var ch [][]byte
+				for l := 0; l < 40; l++ {
+					line := append(bytes.Repeat([]byte{byte('a' + w)}, 4500+(l*37+w*101)%1000), '\n')
+					copy(line, fmt.Sprintf("w%d-line%02d:", w, l))
+					st = append(st, line...)
+					ch = append(ch, line)
+				}
+				s.streams = append(s.streams, st)
+				s.chunks = append(s.chunks, ch)
+			}
+			specs = append(specs, s)
+			tags = append(tags, "long-lines-concurrently")
+		}
+	}
 	n := 250
 	if tier == "thorough" {
 		n = 5000
